@@ -14,9 +14,8 @@ import PV.C17.Model
   `AsciiStr` is ASCII in the real code except the result of the `c` presentation type, whose byte
   length is used as its width (kept here).
 
-  Results are `Res`: `panic` for every Rust panic (`panic!`, `unwrap` on `None`, `String::truncate`
-  off a char boundary, `String::insert` out of range, `i32` overflow in a build with overflow
-  checks, a `format!` precision above `u16::MAX`), `err e` for `Err(FormatSpecError)`, `ok`.
+  Results are `Res`: `panic` for every Rust panic (`String::insert` out of range, `i32` overflow in
+  a build with overflow checks, a `format!` precision above `u16::MAX`), `err e` for `Err(FormatSpecError)`, `ok`.
 
   The float helpers of `literal/src/float.rs` (`format_fixed`, `format_exponent`,
   `format_general`, `to_string`) are `PV.C17.*` on top of the exact decimal arithmetic `PV.Dec`;
@@ -211,7 +210,8 @@ def parseType : List Nat → Option FType × List Nat
 
 /-- `FormatSpec::parse` -/
 def parseSpec (text : List Nat) : Except Err FormatSpec :=
-  let (conversion, text) := parseConversion text
+  -- `let conversion = None;` (fix e5c4721: a conversion belongs to the replacement field)
+  let conversion : Option Conv := none
   let (fill, align, text) := parseFillAndAlign text
   let (sign, text) := parseSign text
   let (alt, text) := parseAlternateForm text
@@ -219,6 +219,8 @@ def parseSpec (text : List Nat) : Except Err FormatSpec :=
   match parseNumber text with
   | .error e => .error e
   | .ok (width, text) =>
+    -- fix b59d482: the padding arithmetic is done in `i32`
+    if (match width with | some w => decide (w > i32Max) | none => false) then .error .decimalDigitsTooMany else
     let (grouping, text) := parseGrouping text
     match parsePrecision text with
     | .error e => .error e
@@ -263,30 +265,24 @@ def separateInteger (s : List Nat) (inter : Int) (sep : Nat) (dispDigitCnt : Int
   else
     insertSeparator s inter sep ((magnitudeLen - 1) / inter)
 
-/-- `str::splitn(2, '.')` -/
-def splitDot : List Nat → List Nat × Option (List Nat)
-  | [] => ([], none)
-  | 46 :: r => ([], some r)
-  | c :: r => let (a, b) := splitDot r; (c :: a, b)
-
-/-- `add_magnitude_separators_for_char` -/
+/-- `add_magnitude_separators_for_char` (fix a6de50b): only the leading integer digits are grouped —
+    all of the text for interval 4 (binary/octal/hex), otherwise up to the first non-digit; a text
+    without leading digits (`inf`, `nan`) is zero-padded without separators.  The text is ASCII. -/
 def addSepForChar (s : List Nat) (inter : Int) (sep : Nat) (dispDigitCnt : Int) : Option (List Nat) :=
-  let (intPart, frac) := splitDot s
-  let decDigitCnt : Int := (s.length : Int) - intPart.length
-  let intDigitCnt := dispDigitCnt - decDigitCnt
-  match separateInteger intPart inter sep intDigitCnt with
+  let (intPart, rest) := if inter = 4 then (s, []) else spanDigits s
+  let intDigitCnt := dispDigitCnt - (rest.length : Int)
+  let r : Option (List Nat) :=
+    if intPart.isEmpty then some (List.replicate (max intDigitCnt 0).toNat 48)
+    else separateInteger intPart inter sep intDigitCnt
+  match r with
   | none => none
-  | some r => some (match frac with
-    | some p => r ++ 46 :: p
-    | none => r)
+  | some r => some (r ++ rest)
 
-/-- `get_separator_interval`; `none` is the `panic!("Separators only valid for numbers!")` -/
-def getSeparatorInterval (spec : FormatSpec) : Option Nat :=
+/-- `get_separator_interval` (fix a6de50b: no `panic!` arm any more) -/
+def getSeparatorInterval (spec : FormatSpec) : Nat :=
   match spec.ftype with
-  | some .binary | some .octal | some (.hex _) => some 4
-  | some .decimal | some (.number _) | some (.fixed _) => some 3
-  | none => some 3
-  | _ => none
+  | some .binary | some .octal | some (.hex _) => 4
+  | _ => 3
 
 /-- `add_magnitude_separators`; `s` and `prefix` are ASCII -/
 def addMagnitudeSeparators (spec : FormatSpec) (s : List Nat) (pfx : List Nat) : Option (List Nat) :=
@@ -294,15 +290,17 @@ def addMagnitudeSeparators (spec : FormatSpec) (s : List Nat) (pfx : List Nat) :
   | none => some s
   | some g =>
     let sep := match g with | .comma => 44 | .underscore => 95
-    match getSeparatorInterval spec with
+    let inter := getSeparatorInterval spec
+    let magnitudeLen := s.length
+    -- the width drives zero padding only under sign-aware zero padding (`0` flag / `0=`)
+    let zeroPadded := spec.fill = some 48 ∧ spec.align = some .afterSign
+    let width : Option Int :=
+      if zeroPadded then chkI32 (wrapI32 (spec.width.getD magnitudeLen) - wrapI32 pfx.length) else some 0
+    match width with
     | none => none
-    | some inter =>
-      let magnitudeLen := s.length
-      match chkI32 (wrapI32 (spec.width.getD magnitudeLen) - wrapI32 pfx.length) with
-      | none => none
-      | some width =>
-        let disp := max width (wrapI32 magnitudeLen)
-        addSepForChar s inter sep disp
+    | some width =>
+      let disp := max width (wrapI32 magnitudeLen)
+      addSepForChar s inter sep disp
 
 /-- `validate_format(default_format_type)` -/
 def validateFormat (spec : FormatSpec) (dflt : FType) : Except Err Unit :=
@@ -470,9 +468,9 @@ def intMagnitude (spec : FormatSpec) (num : Int) : Res (List Nat ⊕ List Nat) :
   | some .character =>
     if spec.sign.isSome then .err .notAllowed
     else if spec.alt then .err .notAllowed
-    else if 0 ≤ num ∧ num.toNat ≤ 0x10ffff then
-      -- `num.to_u32()` is `Some(n)` with `n <= 0x10ffff`; `char::from_u32(n).unwrap()`
-      if isSurrogate num.toNat then .panic else .ok (.inl [num.toNat])
+    else if spec.precision.isSome then .err .precisionNotAllowed
+    -- `num.to_u32().and_then(char::from_u32)` (fix b3fed62): no `char` for surrogates / > 0x10ffff
+    else if 0 ≤ num ∧ num.toNat ≤ 0x10ffff ∧ isSurrogate num.toNat = false then .ok (.inl [num.toNat])
     else .err .codeNotInRange
   | some (.general _) | some (.fixed _) | some (.exponent _) | some .percentage =>
     match bigToF64 num with
@@ -500,28 +498,24 @@ def formatInt (spec : FormatSpec) (num : Int) : Res (List Nat) :=
     | .inl raw =>
       let signPrefix := sSign (num < 0) spec.sign ++ intPrefix spec
       (Res.ofOption (addMagnitudeSeparators spec raw signPrefix)).bind fun mag =>
-      -- `AsciiStr::char_len` is the byte length
-      Res.ofOption (formatSignAndAlign spec mag (utf8Len mag) signPrefix .right)
+      -- `AsciiStr::char_len` counts characters (fix b3fed62)
+      Res.ofOption (formatSignAndAlign spec mag mag.length signPrefix .right)
 
-/-- `String::truncate(new_len)`: no-op past the end, panic off a char boundary -/
-def truncateBytes : List Nat → Nat → Option (List Nat)
-  | [], _ => some []
-  | c :: cs, n =>
-    if n = 0 then some []
-    else if utf8Len1 c ≤ n then (truncateBytes cs (n - utf8Len1 c)).map (c :: ·)
-    else none
-
-/-- `format_string` for a Python `str` (`char_len` = number of characters) -/
+/-- `format_string` for a Python `str` (fix 19885fd: sign and `#` rejected, precision counts
+    characters and is applied before padding) -/
 def formatString (spec : FormatSpec) (s : List Nat) : Res (List Nat) :=
   match validateFormat spec .string with
   | .error e => .err e
   | .ok () =>
     match spec.ftype with
     | some .string | none =>
-      (Res.ofOption (formatSignAndAlign spec s s.length [] .left)).bind fun value =>
-      match spec.precision with
-      | some p => Res.ofOption (truncateBytes value p)
-      | none => .ok value
+      if spec.sign.isSome then .err .notAllowed
+      else if spec.alt then .err .notAllowed
+      else
+        let truncated := match spec.precision with
+          | some p => s.take p
+          | none => s
+        Res.ofOption (formatSignAndAlign spec truncated truncated.length [] .left)
     | _ => .err .unknownFormatCode
 
 def sTrue : List Nat := [84, 114, 117, 101]
@@ -536,7 +530,11 @@ def formatBool (spec : FormatSpec) (b : Bool) : Res (List Nat) :=
   | some .binary | some .decimal | some .octal | some (.number false) | some (.hex _)
   | some (.general _) | some .character => formatInt spec (if b then 1 else 0)
   | some (.exponent _) | some (.fixed _) | some .percentage => formatFloat spec (boolBits b)
-  | none => .ok (if b then sTrue else sFalse)
+  | none =>
+    -- fix 54c4118: only the empty spec is `str(bool)`; any other spec formats the integer 0 / 1
+    if spec.fill.isNone ∧ spec.align.isNone ∧ spec.sign.isNone ∧ spec.alt = false ∧ spec.width.isNone ∧
+        spec.grouping.isNone ∧ spec.precision.isNone then .ok (if b then sTrue else sFalse)
+    else formatInt spec (if b then 1 else 0)
   | _ => .err .invalidFormatSpecifier
 
 /-! ## end to end -/
